@@ -258,6 +258,11 @@ func (g *GcsEmu) handleGcsListBucket(ctx context.Context, baseUrl HttpBaseUrl, w
 }
 
 func (g *GcsEmu) handleGcsDelete(ctx context.Context, w http.ResponseWriter, bucket string, filename string, conds cloudstorage.Conditions) {
+	if bucket == "" {
+		// "DELETE /storage/v1/b": without this the file store removes its whole root directory, i.e. every bucket
+		g.gapiError(w, http.StatusBadRequest, "missing bucket name")
+		return
+	}
 	err := g.locks.Run(ctx, lockName(bucket, filename), func(ctx context.Context) error {
 		// Find the existing file / meta.
 		obj, err := g.store.GetMeta(dontNeedUrls, bucket, filename)
